@@ -23,7 +23,7 @@ META = {
     "level": "proof",
     "technique": "Coq proofs by induction over the string (scanning code refined to counting), hand-written Gallina model of position.rs / "
                  "line_index.rs / span.rs / error.rs with explicit Panic outcomes, tied to the code by exhaustive + random differential runs of the "
-                 "extracted model and of the extracted specification on the real pest API",
+                 "extracted model and of the extracted specification on the real pest API (pest built with its default features and without memchr; short strings exhaustively, lines of 1000-5000 characters sampled)",
     "text": "Theorem C10_outside_known_classes (coq/props/C10.v, closed under the global context), for every string and every UTF-8 boundary "
             "offset / ordered boundary pair: Position::line_col = (1 + #LF before, 1 + #chars since the last LF); LineIndex/Pair::line_col = "
             "Position::line_col (whole-input and truncated index; C10_partition_point_precondition: the offsets are sorted); line_of / find_line_start / "
@@ -43,7 +43,14 @@ META = {
 }
 
 
+BUILD_NAME = {"default": "pest with its default features (memchr)",
+              "nomemchr": "pest built with --no-default-features --features std (no memchr)"}
+
 FX = "fx=00"   # model flags handed to the runner (<fix_continued><fix_eoi_line>); set by probe() in run()
+
+
+def setup():
+    harness_build(["c10_nm"], crate="harness-nm")
 
 
 def probe(hbin):
@@ -57,16 +64,22 @@ def probe(hbin):
     return flags
 
 
-def run_cases(hbin, runner, cmds, timeout=3000):
-    outs = run_pipeline(["%s %s | %s %s" % (hbin, c, runner, FX) for c in cmds], timeout=timeout)
+def run_cases(runner, cmds, timeout=3000):
+    """cmds: list of (build tag, harness binary, harness arguments); every mismatch is tagged with the build it was seen on."""
+    outs = run_pipeline(["%s %s | %s %s" % (hbin, c, runner, FX) for _, hbin, c in cmds], timeout=timeout)
     mism, stats = [], {}
-    for (rc, out), c in zip(outs, cmds):
+    for (rc, out), (tag, hbin, c) in zip(outs, cmds):
         m, s, other = parse_runner_output(out)
         if rc != 0 or "mismatches" not in s or "evaluations" not in s:
-            mism.append({"kind": "harness", "case": c, "impl": "pipeline failed rc=%s" % rc, "expected": out[-500:]})
+            mism.append({"kind": "harness", "case": c, "impl": "pipeline failed rc=%s" % rc, "expected": out[-500:], "build": tag})
+        for x in m:
+            x["build"] = tag
         mism += m
+        grp = ("long_" if c.startswith("long ") else "") + tag + "_"
         for k, v in s.items():
             stats[k] = stats.get(k, 0) + v if isinstance(v, int) else v
+            if isinstance(v, int):
+                stats[grp + k] = stats.get(grp + k, 0) + v
     return mism, stats
 
 
@@ -93,6 +106,8 @@ def minimise(hbin, runner, case, kind):
         return out
     best_case = case
     cur = unesc_chars(case_string(case))
+    if len(cur) > 80:
+        return case     # a long-line case: `one <string>` enumerates every offset pair of the string, far too many here
     improved = True
     while improved and len(cur) > 1:
         improved = False
@@ -136,6 +151,14 @@ def run(tier, seed, replay=None):
         res.violation("OCaml runner does not build", {"theorem_or_correspondence": "C10 extraction", "log": oout[-3000:]}, no_failing_input=True)
         return res.finish()
     hbin = os.path.join(bdir, "c10")
+    # the same harness source against pest built WITHOUT its default feature `memchr` (cfg(not(feature = "memchr")) code paths)
+    nrc, nout, ndir = harness_build(["c10_nm"], crate="harness-nm")
+    if nrc != 0:
+        res.violation("harness does not build against pest without its default features (--no-default-features --features std): "
+                      "correspondence C10 cannot run for that build",
+                      {"theorem_or_correspondence": "C10 correspondence (build, pest without memchr)", "log": nout[-3000:]}, no_failing_input=True)
+    BIN = {"default": hbin, "nomemchr": os.path.join(ndir, "c10_nm")}
+    builds = ["default"] + (["nomemchr"] if nrc == 0 else [])
     global FX
     flags = probe(hbin)
     FX = "fx=%d%d" % (flags["fix_continued"], flags["fix_eoi_line"])
@@ -144,39 +167,60 @@ def run(tier, seed, replay=None):
          "repaired (C10-2 patch)" if flags["fix_eoi_line"] else "as shipped", FX))
 
     if replay:
-        case = json.load(open(replay)).get("case", "")
-        m, s = one_case(hbin, runner, case, showknown=True)
+        rj = json.load(open(replay))
+        case = rj.get("case", "")
+        rb = rj.get("build", "default")
+        if rb not in builds:
+            log("replay: the build `%s` named in the replay file is not available" % rb)
+            res.violation("replay needs pest built without its default features, which does not build", {"case": case, "build": rb}, no_failing_input=True)
+            return res.finish()
+        log("replay on build: %s (%s)" % (rb, BUILD_NAME[rb]))
+        m, s = one_case(BIN[rb], runner, case, showknown=True)
         for x in m:
             log("  %s case=%s impl=%s expected=%s" % (x["kind"], x["case"], x["impl"][:400], x["expected"][:400]))
         spec = [x for x in m if x["kind"] == "spec"]
         log("replay %s: spec-disagreement=%s model-disagreement=%s known-class=%s" %
             (case, bool(spec), any(x["kind"] == "model" for x in m), any(x["kind"] == "known" for x in m)))
         if spec:
-            res.violation("replayed case still violates the specification", {"case": case, "impl": spec[0]["impl"], "spec": spec[0]["expected"]})
+            res.violation("replayed case still violates the specification", {"case": case, "build": rb, "impl": spec[0]["impl"], "spec": spec[0]["expected"]})
         return res.finish()
 
     corpus = []
     cpath = os.path.join(ROOT, "corpus", "C10.txt")
     if os.path.exists(cpath):
         corpus = [l.rstrip("\n") for l in open(cpath) if l.strip() and not l.startswith("#")]
-    cmds = ["one '%s'" % c.replace("'", "'\\''") for c in corpus]
+    base = ["one '%s'" % c.replace("'", "'\\''") for c in corpus]
     shards = max(4, min(NPROC, 16))
     if tier == "quick":
         exhaustive_len = 5
-        cmds += ["exhaustive %d 0 1" % n for n in (0, 1, 2, 3, 4)]
-        cmds += ["exhaustive 5 %d %d" % (k, shards) for k in range(shards)]
-        cmds += ["random 600 %d 40" % (seed * 1000 + i) for i in range(shards)]
+        base += ["exhaustive %d 0 1" % n for n in (0, 1, 2, 3, 4)]
+        base += ["exhaustive 5 %d %d" % (k, shards) for k in range(shards)]
+        base += ["random 600 %d 40" % (seed * 1000 + i) for i in range(shards)]
+        # long lines (see `long` in c10.rs): budget in units of (chars/1000)^2 model work, longest text
+        long_plan = {"default": (100, 5000, max(2, (2 * shards) // 3)), "nomemchr": (50, 2200, max(2, shards // 3))}
     else:
         exhaustive_len = 7
-        cmds += ["exhaustive %d 0 1" % n for n in (0, 1, 2, 3, 4)]
-        cmds += ["exhaustive 5 %d %d" % (k, 4) for k in range(4)]
-        cmds += ["exhaustive 6 %d %d" % (k, shards) for k in range(shards)]
-        cmds += ["exhaustive 7 %d %d" % (k, 4 * shards) for k in range(4 * shards)]
-        cmds += ["random 6000 %d 60" % (seed * 1000 + i) for i in range(shards)]
+        base += ["exhaustive %d 0 1" % n for n in (0, 1, 2, 3, 4)]
+        base += ["exhaustive 5 %d %d" % (k, 4) for k in range(4)]
+        base += ["exhaustive 6 %d %d" % (k, shards) for k in range(shards)]
+        base += ["exhaustive 7 %d %d" % (k, 4 * shards) for k in range(4 * shards)]
+        base += ["random 6000 %d 60" % (seed * 1000 + i) for i in range(shards)]
+        long_plan = {"default": (1500, 5000, 2 * shards), "nomemchr": (600, 5000, shards)}
+    # every command on both builds of pest; the long-line shards first (the slowest single cases are there)
+    cmds = []
+    for b in builds:
+        budget, maxlen, n = long_plan[b]
+        cmds += [(b, BIN[b], "long %d %d %d %d %d" % (seed, k, n, budget, maxlen)) for k in range(n)]
+    for b in builds:
+        if b != "default" and tier != "quick":
+            # thorough: the length-7 sweep stays on the default build; without memchr up to length 6
+            cmds += [(b, BIN[b], c) for c in base if not c.startswith("exhaustive 7 ")]
+        else:
+            cmds += [(b, BIN[b], c) for c in base]
     # run at most NPROC pipelines at a time
     mism, stats = [], {}
     for i in range(0, len(cmds), NPROC):
-        m, s = run_cases(hbin, runner, cmds[i:i + NPROC])
+        m, s = run_cases(runner, cmds[i:i + NPROC])
         mism += m
         for k, v in s.items():
             stats[k] = stats.get(k, 0) + v if isinstance(v, int) else v
@@ -184,23 +228,30 @@ def run(tier, seed, replay=None):
     spec_m = [m for m in mism if m["kind"] == "spec"]
     model_m = [m for m in mism if m["kind"] == "model"]
     other_m = [m for m in mism if m["kind"] not in ("spec", "model")]
+    border = {b: i for i, b in enumerate(builds)}
+    rank = lambda m: (len(m["case"]), border.get(m.get("build"), 9), m["case"])
     if spec_m:
-        worst = min(spec_m, key=lambda m: (len(m["case"]), m["case"]))
-        small = minimise(hbin, runner, worst["case"], "spec")
-        d, _ = one_case(hbin, runner, small)
+        worst = min(spec_m, key=rank)
+        wb = worst.get("build", "default")
+        small = minimise(BIN[wb], runner, worst["case"], "spec")
+        d, _ = one_case(BIN[wb], runner, small)
         d = ([x for x in d if x["kind"] == "spec"] or [worst])[0]
-        res.violation("pest disagrees with the line/column specification on case %s (S/P/Q/M : offsets : string)" % small,
-                      {"theorem_or_correspondence": "C10 oracle: impl vs extracted Pos.Spec", "case": small, "impl": d["impl"], "spec": d["expected"],
-                       "minimised_from": worst["case"], "other_failing_cases": [m["case"] for m in spec_m[:10]],
+        only = sorted(set(m.get("build", "default") for m in spec_m))
+        res.violation("pest%s disagrees with the line/column specification on case %s (S/P/Q/M : offsets : string)" %
+                      ("" if wb == "default" else " (" + BUILD_NAME[wb] + ")", small if len(small) < 300 else small[:120] + "... (%d chars)" % len(small)),
+                      {"theorem_or_correspondence": "C10 oracle: impl vs extracted Pos.Spec", "case": small, "build": wb, "build_means": BUILD_NAME[wb],
+                       "builds_with_spec_disagreements": only, "impl": d["impl"], "spec": d["expected"],
+                       "minimised_from": worst["case"], "other_failing_cases": [m["case"][:300] + " [" + m.get("build", "default") + "]" for m in sorted(spec_m, key=rank)[:10]],
                        "legend": "P:<offset>:<string>, Q:<start>:<end>:<string>, S:<string>, M:<a>:<b>:<c>:<d>:<string>, T:<tree s-e[children],..>:<string>, U:<a>:<c>:<d>:<b>:<string>; \\n \\r \\t escaped"})
     elif model_m:
-        worst = min(model_m, key=lambda m: (len(m["case"]), m["case"]))
-        small = minimise(hbin, runner, worst["case"], "model")
-        d, _ = one_case(hbin, runner, small)
+        worst = min(model_m, key=rank)
+        wb = worst.get("build", "default")
+        small = minimise(BIN[wb], runner, worst["case"], "model")
+        d, _ = one_case(BIN[wb], runner, small)
         d = ([x for x in d if x["kind"] == "model"] or [worst])[0]
-        res.violation("correspondence broken: pest differs from coq/Pos/Model.v + ErrorFmt.v on case %s, but no case was found on which it "
-                      "differs from the specification outside the known classes" % small,
-                      {"theorem_or_correspondence": "C10 correspondence: impl vs extracted Pos.Model/ErrorFmt", "case": small,
+        res.violation("correspondence broken: pest%s differs from coq/Pos/Model.v + ErrorFmt.v on case %s, but no case was found on which it "
+                      "differs from the specification outside the known classes" % ("" if wb == "default" else " (" + BUILD_NAME[wb] + ")", small[:300]),
+                      {"theorem_or_correspondence": "C10 correspondence: impl vs extracted Pos.Model/ErrorFmt", "case": small, "build": wb,
                        "impl": d["impl"], "model": d["expected"], "searched": stats}, no_failing_input=True)
     for m in other_m:
         res.violation("harness failure: " + m["impl"], {"theorem_or_correspondence": "C10 correspondence (run)", "case": m["case"], "log": m["expected"]},
@@ -225,13 +276,22 @@ def run(tier, seed, replay=None):
 
     res.coverage.update({
         "evaluations": stats.get("evaluations", 0),
-        "distinct_nontrivial": stats.get("distinct_nontrivial", 0),
+        "distinct_nontrivial": max([stats.get(b + "_distinct_nontrivial", 0) + stats.get("long_" + b + "_distinct_nontrivial", 0) for b in builds] or [0]),
+        "distinct_nontrivial_per_build": {b: stats.get(b + "_distinct_nontrivial", 0) + stats.get("long_" + b + "_distinct_nontrivial", 0) for b in builds},
         "rule": "every string of length <= %d over {a, e-acute (2 bytes), emoji (4 bytes), LF, CR, TAB}: all byte offsets for Position::new/Span::new (length <= 4), "
                 "every boundary offset (P) and every ordered pair of boundary offsets (Q), all quadruples for merge_spans (length <= 2), PairsBuilder trees that are NOT in source order / whose children start after or reach past their parents "
                 "(per boundary x: `x-x,0-0` and `0-0[x-len]`, plus 2 random trees of 1-9 nodes per string; Pair::line_col of every pair, walked and flattened) and real nested parses "
                 "through pest::state whose last token ends before the end of the input (3 per string); plus random strings of "
                 "6-40 chars in four profiles (many short lines so that line numbers reach two digits, CR/CRLF-heavy, tabs+multi-byte, uniform) with all offsets and "
-                "a sample of pairs. Non-trivial = the text before the (end) offset contains a LF, CR, TAB or multi-byte char; distinct by case text." % exhaustive_len,
+                "a sample of pairs; all of it run twice, against pest with its default features and against pest built without memchr (rust/harness-nm, same harness source%s); plus long lines (see long_lines). Non-trivial = the text before the (end) offset contains a LF, CR, TAB or multi-byte char; distinct by case text; distinct_nontrivial is the larger of the two builds' counts (the same cases are run on both), evaluations is the sum." % (exhaustive_len, "" if tier == "quick" else "; without memchr the exhaustive sweep stops at length 6"),
+        "builds": {b: BUILD_NAME[b] for b in builds},
+        "evaluations_per_build": {b: stats.get(b + "_evaluations", 0) + stats.get("long_" + b + "_evaluations", 0) for b in builds},
+        "long_lines": {"what": "texts with one or two lines of 1030..%d characters (ASCII / ASCII+2-byte / ASCII+4-byte+2-byte / ASCII+TAB; alone, after LF and CRLF lines, "
+                               "followed by nothing, LF, CRLF, a short line or a second long line): positions (P) and spans (Q: empty, 1 and 3 chars, to the end of the line, "
+                               "into the next line, from the start of the input) at columns drawn from 1, 2, 1023-1026, 1500, 2047-2049, 4095-4097 and the last columns of the line; "
+                               "compared verbatim with the extracted model and judged by the extracted specification like every other case" % max(long_plan[b][1] for b in builds),
+                       "cases_per_build": {b: stats.get("long_" + b + "_evaluations", 0) for b in builds},
+                       "plan (budget in (chars/1000)^2 units of model work, longest text, shards)": {b: list(long_plan[b]) for b in builds}},
         "exhaustive": True,
         "exhaustive_bound": "string length <= %d chars over the 6-symbol alphabet (the theorems are unbounded)" % exhaustive_len,
         "samples": ["P:3:a\\r\\nb", "Q:1:4:ab\\ncd\\nef", "Q:0:7:abcdef\\n", "S:é😀"] + corpus[:3],
@@ -244,4 +304,6 @@ def run(tier, seed, replay=None):
     res.assumptions = ["error variant CustomError with a fixed message (and with_path on position errors); ParsingError message text is C08's",
                        "Pair::line_col exercised through PairsBuilder (whole-input index) and through pest::state (index truncated at the last token)",
                        "lines meeting a span read as in DESIGN.md section 2 (closed interval [start,end] against non-empty lines)"]
+    if "nomemchr" not in builds:
+        res.assumptions.append("pest without its default features did NOT build: only the default build was exercised")
     return res.finish()
